@@ -392,9 +392,13 @@ enum Kind {
     Carry,
     Pc,
     Const,
+    /// refers to a symbol that is not in scope: cannot be evaluated, i.e. fails
+    Undefined,
+    /// compares a number with a string: has no value, i.e. fails
+    Mixed,
 }
 
-const KINDS: [Kind; 7] = [Kind::A, Kind::X, Kind::Ram, Kind::Zero, Kind::Carry, Kind::Pc, Kind::Const];
+const KINDS: [Kind; 9] = [Kind::A, Kind::X, Kind::Ram, Kind::Zero, Kind::Carry, Kind::Pc, Kind::Const, Kind::Undefined, Kind::Mixed];
 
 impl Kind {
     fn name(self) -> &'static str {
@@ -407,6 +411,8 @@ impl Kind {
             Kind::Carry => "flags.carry",
             Kind::Pc => "pc",
             Kind::Const => "const",
+            Kind::Undefined => "undefined-symbol",
+            Kind::Mixed => "number-vs-string",
         }
     }
     fn state_dependent(self) -> bool {
@@ -423,6 +429,8 @@ enum Pred {
     C(bool),
     Pc(u32),
     Const(bool),
+    Undefined,
+    Mixed,
 }
 
 impl Pred {
@@ -435,6 +443,8 @@ impl Pred {
             Pred::C(b) => s.c == b,
             Pred::Pc(v) => s.pc as u32 == v,
             Pred::Const(b) => b,
+            // "cannot be evaluated" counts as zero
+            Pred::Undefined | Pred::Mixed => false,
         }
     }
     fn expr(self) -> String {
@@ -449,6 +459,8 @@ impl Pred {
             Pred::Pc(v) => format!("* == ${:04x}", v),
             Pred::Const(true) => "c == 5".into(),
             Pred::Const(false) => "c == 6".into(),
+            Pred::Undefined => "ram(hidden_q) == 0".into(),
+            Pred::Mixed => "cpu.x == \"one\"".into(),
         }
     }
 }
@@ -464,6 +476,8 @@ fn make_pred(kind: Kind, s: &St, truth: bool) -> Pred {
         Kind::Carry => Pred::C(s.c == truth),
         Kind::Pc => Pred::Pc(s.pc as u32 + off),
         Kind::Const => Pred::Const(truth),
+        Kind::Undefined => Pred::Undefined,
+        Kind::Mixed => Pred::Mixed,
         Kind::None => unreachable!(),
     }
 }
